@@ -19,7 +19,7 @@ pub fn seeded_rng(salt: u64) -> bc_rand::SeededRandomNumberGenerator {
 
 // ------------------------------------------------------------------------------------ C04
 
-const N_OPS: usize = 26;
+const N_OPS: usize = 30;
 /// apply operation `k`; Ok(None) = operation not applicable to this state (documented error returned)
 fn apply(k: usize, e: &Envelope, step: u32) -> R<Option<Envelope>> {
     let fresh = |j: u32| 700 + step * 20 + j;
@@ -68,6 +68,40 @@ fn apply(k: usize, e: &Envelope, step: u32) -> R<Option<Envelope>> {
             ensure!(r.assertions().len() == asr.len(), "assertion with a digest already present was added again", "{} -> {}", asr.len(), r.assertions().len());
             Some(r)
         }
+        25 => {
+            op("replace_assertion (replacement is not an assertion)");
+            let asr = e.assertions(); if asr.is_empty() { return Ok(None); }
+            let i = choice(asr.len());
+            for bad in [build(&l(fresh(14))), build(&crate::spec::k(3000 + fresh(14) as u64)), build(&w(a(l(fresh(15)), l(fresh(16))))), build(&n(l(fresh(17)), vec![a(l(fresh(18)), l(fresh(19)))]))] {
+                ensure!(e.replace_assertion(asr[i].clone(), bad).is_err(), "replace_assertion accepted a replacement that is neither an assertion nor obscured", "");
+            }
+            None
+        }
+        26 => {
+            op("replace_assertion (replacement already present)");
+            let asr = e.assertions(); if asr.len() < 2 { return Ok(None); }
+            let i = choice(asr.len()); let j = (i + 1 + choice(asr.len() - 1)) % asr.len();
+            let twin = if choice(2) == 0 { asr[j].clone() } else { asr[j].elide() };
+            let r = must!(e.replace_assertion(asr[i].clone(), twin), "replace refused");
+            ensure!(r.assertions().len() == asr.len() - 1, "replace_assertion left two elements with the same digest", "{} -> {}", asr.len(), r.assertions().len());
+            Some(r)
+        }
+        27 => {
+            op("replace_subject (by the envelope itself)");
+            let r = e.replace_subject(e.clone());
+            ensure!(r.assertions().len() == e.assertions().len(), "replace_subject duplicated assertions", "{} -> {}", e.assertions().len(), r.assertions().len());
+            Some(r)
+        }
+        28 => {
+            op("replace_subject (node sharing an assertion)");
+            let asr = e.assertions(); if asr.is_empty() { return Ok(None); }
+            let i = choice(asr.len());
+            let shared = if choice(2) == 0 { asr[i].clone() } else { asr[i].elide() };
+            let ns = must!(build(&l(fresh(7))).add_assertion_envelope(shared), "add refused");
+            let r = e.replace_subject(ns);
+            ensure!(r.assertions().len() == asr.len(), "replace_subject duplicated a shared assertion", "{} -> {}", asr.len(), r.assertions().len());
+            Some(r)
+        }
         _ => { op("encode->decode"); Some(must!(Envelope::try_from_cbor_data(bytes(e)), "decode of own encoding failed")) }
     })
 }
@@ -94,7 +128,7 @@ fn sequences_with(len: usize, reduced: bool) -> R {
     if let Err(m) = well_formed(&e) { return rt::viol("freshly built envelope not canonical", m); }
     let mut trace = vec![s.show()];
     // structural operations that re-sort / merge / collapse; the others are exercised at length 2
-    let core: [usize; 12] = [0, 1, 2, 4, 5, 6, 7, 9, 14, 16, 23, 24];
+    let core: [usize; 14] = [0, 1, 2, 4, 5, 6, 7, 9, 14, 16, 23, 24, 26, 28];
     for step in 0..len {
         let k = if reduced { core[choice(core.len())] } else { choice(N_OPS) };
         let before = bytes(&e);
@@ -371,13 +405,13 @@ pub fn prop_c04() -> Prop {
         id: "C04",
         scenarios: vec![
             Scenario { name: "sequences2", f: seq2, thorough_only: false,
-                bounds: "13 start envelopes (leaf, known value, assertion, wrapped, nodes with 1-3 assertions, decorated assertion, wrapped node subject, elided / compressed / encrypted children, assertion subject) x every sequence of 2 operations out of 26 (add, add duplicate, add an elided/compressed copy of a present assertion, add the clear copy of an elided assertion, remove present/absent, replace assertion, replace subject by leaf / by node, wrap, unwrap, elide removing / revealing, compress(_subject), uncompress(_subject), encrypt_subject, decrypt_subject, add_salt_instance, add_assertion_salted, add_signature, add_recipient, add_type, add_attachment, encode->decode) with every argument choice x every digest order; after each step: structure well-formed, stored digests == recomputed, serialized bytes accepted by an independent grammar recogniser, assertion elements strictly ascending under the path condition, receiver unchanged",
+                bounds: "13 start envelopes (leaf, known value, assertion, wrapped, nodes with 1-3 assertions, decorated assertion, wrapped node subject, elided / compressed / encrypted children, assertion subject) x every sequence of 2 operations out of 30 (replace_assertion with an invalid / already present replacement, replace_subject by the envelope itself / by a node sharing an assertion, add, add duplicate, add an elided/compressed copy of a present assertion, add the clear copy of an elided assertion, remove present/absent, replace assertion, replace subject by leaf / by node, wrap, unwrap, elide removing / revealing, compress(_subject), uncompress(_subject), encrypt_subject, decrypt_subject, add_salt_instance, add_assertion_salted, add_signature, add_recipient, add_type, add_attachment, encode->decode) with every argument choice x every digest order; after each step: structure well-formed, stored digests == recomputed, serialized bytes accepted by an independent grammar recogniser, assertion elements strictly ascending under the path condition, receiver unchanged",
                 api: &["add_assertion", "add_assertion_envelope", "remove_assertion", "replace_assertion", "replace_subject", "wrap_envelope", "unwrap_envelope", "elide_removing_target", "elide_revealing_array", "compress", "compress_subject", "uncompress", "uncompress_subject", "encrypt_subject", "decrypt_subject", "add_salt_instance", "add_assertion_salted", "add_signature", "add_recipient", "add_type", "add_attachment", "try_from_cbor_data", "tagged_cbor"] },
             Scenario { name: "sequences3", f: seq3, thorough_only: false,
-                bounds: "same starts x every sequence of 3 operations out of the 12 structural ones (add, add duplicate, add obscured/clear copy of a present assertion, remove, replace assertion, replace subject by leaf / node, wrap, elide, uncompress_subject, decrypt_subject) x every digest order",
+                bounds: "same starts x every sequence of 3 operations out of the 14 structural ones (replace with a present twin, replace_subject by a node sharing an assertion, add, add duplicate, add obscured/clear copy of a present assertion, remove, replace assertion, replace subject by leaf / node, wrap, elide, uncompress_subject, decrypt_subject) x every digest order",
                 api: &["add_assertion", "add_assertion_envelope", "remove_assertion", "replace_assertion", "replace_subject", "wrap_envelope", "elide_removing_target", "uncompress_subject", "decrypt_subject"] },
-            Scenario { name: "sequences3_full", f: seq3_full, thorough_only: true, bounds: "every sequence of 3 operations out of all 26", api: &["(all of sequences2)"] },
-            Scenario { name: "sequences4", f: seq4, thorough_only: true, bounds: "every sequence of 4 operations out of the 12 structural ones", api: &["(all of sequences3)"] },
+            Scenario { name: "sequences3_full", f: seq3_full, thorough_only: true, bounds: "every sequence of 3 operations out of all 30", api: &["(all of sequences2)"] },
+            Scenario { name: "sequences4", f: seq4, thorough_only: true, bounds: "every sequence of 4 operations out of the 14 structural ones", api: &["(all of sequences3)"] },
         ],
         assumptions: COMMON_ASSUMPTIONS.to_vec(),
     }
